@@ -74,6 +74,10 @@ pub fn install_panic_hook() {
     }));
 }
 
+pub fn classify_unwind_pub(payload: Box<dyn std::any::Any + Send>) -> End {
+    classify_unwind(payload)
+}
+
 fn classify_unwind(payload: Box<dyn std::any::Any + Send>) -> End {
     if let Some(b) = payload.downcast_ref::<BudgetExceeded>() {
         if b.work_cap {
